@@ -158,7 +158,8 @@ func runC05(c *Ctx, r *Report, tier string) {
 	for _, s := range c.storesTo(pd) {
 		fn := c.fname(s.Fn)
 		v := c.term(s.Store.Val)
-		ok := (fn == "(*Option).Set" && v == "true") || (fn == "(*Option).setDefault" && v == "false") || (fn == "(*IniParser).parse" && (v == "true" || v == "false"))
+		by := func(name string) bool { a := c.Fn(name); return a != nil && c.actsFor(s.Fn, a) }
+		ok := (by("(*Option).Set") && v == "true") || (by("(*Option).setDefault") && v == "false") || (by("(*IniParser).parse") && (v == "true" || v == "false"))
 		r.Check(ok, "FLAGS", fn, "store preventDefault = "+v, c.ipos(s.Store), "allowed writer and constant", "preventDefault stored as "+v+" in "+fn)
 	}
 	for _, ret := range returnsOf(set) {
@@ -174,7 +175,7 @@ func runC05(c *Ctx, r *Report, tier string) {
 		fn := c.fname(s.Fn)
 		v := c.term(s.Store.Val)
 		inClosureOf := func(anchor *ssa.Function) bool { return anchor != nil && s.Fn.Parent() != nil && c.actsForC(s.Fn, anchor) }
-		ok := (v == "true" && (inClosureOf(pa) || inClosureOf(c.Fn("(*IniParser).parse")))) || (v == "false" && fn == "(*Option).Set")
+		ok := (v == "true" && (inClosureOf(pa) || inClosureOf(c.Fn("(*IniParser).parse")))) || (v == "false" && c.actsFor(s.Fn, set))
 		r.Check(ok, "FLAGS", fn, "store clearReferenceBeforeSet = "+trunc(v, 60), c.ipos(s.Store), "armed with the constant true by the two parse entry passes, cleared by Set", "clearReferenceBeforeSet stored as "+trunc(v, 80)+" in "+fn)
 	}
 	arm := c.isCallPassingClosureThat("(*Command).eachOption", func(in ssa.Instruction) bool {
